@@ -172,6 +172,8 @@ def gen_sources(rng):
     # guarded block and comments
     files["macros.h"].insert(0, "/* a comment */\n#ifndef HEADER_H\n#define HEADER_H\n#include \"other.h\"")
     files["macros.h"].append("#ifdef QEMU_GENERATE\n#define fGEN(A) generate_only(A)\n#else\n#define fGEN(A) helper_only(A)\n#endif")
+    files["macros.h"].append("#ifndef QEMU_GENERATE\n#define fNOGEN(A) ((A) * 2)\n#endif")
+    files["macros.inc"].append("#ifndef QEMU_GENERATE\n#define fNOGEN2(A) ((A) + 40)\n#endif")
     files["macros.h"].append("// trailing comment\n#endif")
     files["macros_mmvec.h"].append("#ifdef QEMU_GENERATE\n#define fVEC(A) vec_generate(A)\n#endif")
     files["macros.inc"].append("#define OBJ_CONST 42")
@@ -191,7 +193,7 @@ def gen_sources(rng):
     sc = ["#ifndef DEF_SHORTCODE", "#define DEF_SHORTCODE(TAG,SHORTCODE)    /* Nothing */", "#endif"]
     insns = []
     for k in range(rng.randint(8, 20)):
-        uses = " ".join(f"{rng.choice(names + names_extra + ['fGEN', 'fVEC', 'fUSERONLY'])}({rng.choice(['RsV', 'RtV + 1', 'uiV'])});" for _ in range(rng.randint(1, 3)))
+        uses = " ".join(f"{rng.choice(names + names_extra + ['fGEN', 'fVEC', 'fUSERONLY', 'fNOGEN', 'fNOGEN2'])}({rng.choice(['RsV', 'RtV + 1', 'uiV'])});" for _ in range(rng.randint(1, 3)))
         sc.append(f"DEF_SHORTCODE(G{k}_op, {{ {uses} RdV = OBJ_CONST; }})")
         insns.append(f"G{k}_op")
     out_files = {k: "\n".join(v) + "\n" for k, v in files.items()}
@@ -208,6 +210,8 @@ def gen_sources(rng):
     eff.extend(extra_eff)
     eff.append("#define fGEN(A) helper_only(A)")
     eff.append("#define fVEC(A) vec_generate(A)")
+    eff.append("#define fNOGEN(A) ((A) * 2)")
+    eff.append("#define fNOGEN2(A) ((A) + 40)")
     return out_files, "\n".join(eff) + "\n", insns, set(patches), orig
 
 
